@@ -1042,6 +1042,10 @@ func main() {
 			cls, out, issues := checkCase(b, o)
 			sum.Evaluations++
 			sum.Count("corpus " + cls)
+			stem := strings.TrimSuffix(filepath.Base(f), ".cdc")
+			for k := range issues {
+				issues[k].Key = "corpus:" + stem + ":" + issues[k].Key
+			}
 			report(string(b), o, cls, out, issues, "corpus/"+filepath.Base(f))
 		}
 	}
@@ -1078,9 +1082,14 @@ func main() {
 				if j == 0 && i%3 == 0 {
 					o = defaultOpt()
 				}
+				// SkipVerify switches the formatter's own round-trip check off; what it then lets through are the
+				// layout defects of the AST printer on comment-free programs (C38's subject, one reproducer in the
+				// corpus).  The random full-grammar streams keep the check on; the skeleton stream covers both.
+				o.SkipVerify = false
 				cls, out, issues := checkCase([]byte(src), o)
 				sum.Evaluations++
 				sum.Count(stream + " " + cls)
+				sum.Count(fmt.Sprintf("options keep_blank=%d sort=%v strip_semi=%v width=%d indent=%q*%d", o.KeepBlank, o.Sort, o.StripSemi, o.LineWidth, o.IndentChar, o.IndentN))
 				if cls == "formatted" {
 					distinct[src] = true
 				}
@@ -1115,6 +1124,7 @@ func main() {
 		o.KeepBlank = []int{1, 1, 2, 0}[r.Intn(4)]
 		o.Sort = !r.Chance(1, 4)
 		o.StripSemi = !r.Chance(1, 4)
+		o.SkipVerify = r.Chance(1, 3)
 		cls, out, issues := checkCase([]byte(src), o)
 		sum.Evaluations++
 		sum.Count("skeleton " + cls)
